@@ -509,15 +509,37 @@ def mutations(text, rng, per_kind=3):
     return res
 
 
-_ALLOWED_DROP = {"::", "KIND", "LEN", "UNIT"}
+_ALLOWED_TOK = {"::", "KIND", "LEN", "UNIT"}
+_COMMA_STMT = re.compile(r"^\s*(\d+\s+FORMAT\b|NAMELIST\b|DATA\b|(IF\s*\(.*\)\s*)?GO TO\s*\()")
+
+
+def _line_of(text, mutated):
+    """the line of `text` where it first differs from `mutated`"""
+    i = 0
+    n = min(len(text), len(mutated))
+    while i < n and text[i] == mutated[i]:
+        i += 1
+    a = text.rfind("\n", 0, i) + 1
+    b = text.find("\n", i)
+    return text[a:b if b >= 0 else len(text)]
 
 
 def allowed_mutation(kind, info, text, mutated):
-    """Mutations that only touch what the documented canonicalisations allow (so `eq` is the
-    correct answer).  Decided from the mutation itself, not from the model."""
-    if kind in ("drop", "dup"):
-        if info in _ALLOWED_DROP:
+    """Mutations that only touch what the documented canonicalisations allow (so `eq` is a
+    correct answer).  Decided from the mutation itself, never from the model:
+    * a `::`, `KIND`, `LEN`, `UNIT` token dropped / duplicated / moved;
+    * a comma dropped / duplicated / moved inside a FORMAT, NAMELIST, DATA or computed-GOTO
+      statement (optional-comma positions);
+    * the case of a BOZ digit (`Z'ff'` is printed `Z'FF'`: keyword case)."""
+    parts = [info] if kind in ("drop", "dup") else info.split(" <-> ") if kind == "swap" else []
+    if any(p in _ALLOWED_TOK for p in parts):
+        return True
+    line = _line_of(text, mutated)
+    if "," in parts or (kind == "swap" and "/" in parts):
+        if _COMMA_STMT.match(line.upper()):
             return True
+    if kind == "lit" and re.search(r"\b[BOZX]" + re.escape(info), line):
+        return True
     return False
 
 
@@ -705,8 +727,12 @@ def body1(text, isfree):
 def check_nest1(model, src, isfree=True):
     """-> dict(agree=bool, real=…, model=…, c19=bool|None, shared=bool)"""
     tree, err = parse1(src, isfree)
-    rep = model.ask("nest1", encode_lines(src, isfree))
-    res = {"shared": False, "c19": None}
+    enc = encode_lines(src, isfree)
+    # fparser1 prints the header of a FORALL / ASSOCIATE construct as the tokeniser
+    # placeholder `F2PY_EXPR_TUPLE_n` (process_item forgets apply_map): known C19 defect
+    res = {"shared": False, "c19": None,
+           "lost_header": bool(re.search(r";O;(forall|associate);", enc))}
+    rep = model.ask("nest1", enc)
     if tree is not None:
         res["real"] = ("ok", real_nesting(tree))
     elif isinstance(err, tuple):
@@ -795,7 +821,8 @@ class Gen:
         cn = self.name("blk") if r.random() < 0.25 else ""
         out = [(cn + ": " if cn else "") + "if (x > %d) then" % r.randint(0, 9)] + self.body(d - 1)
         for _ in range(r.randint(0, 2)):
-            out += [r.choice(["else if", "elseif"]) + " (x < 3) then" + (" " + cn if cn and r.random() < .5 else "")]
+            # fparser1's ElseIf pattern rejects a trailing construct name: never generated
+            out += [r.choice(["else if", "elseif"]) + " (x < 3) then"]
             out += self.body(d - 1)
         if r.random() < 0.5:
             out += ["else"] + self.body(d - 1)
@@ -886,16 +913,23 @@ class Gen:
             out += self.unit(r.choice(["program", "subroutine", "function", "module"]), r.randint(0, 3))
         if self.broken:
             k = r.random()
-            ends = [i for i, s in enumerate(out) if s.startswith("end")]
+            # (ends of WHERE/FORALL are left alone: inside those blocks fparser1's Assignment
+            #  pattern accepts lines such as `do 30, i = 1, 3`, a leaf-regex matter)
+            ends = [i for i, s in enumerate(out) if s.startswith("end") and "where" not in s and "forall" not in s]
             if k < 0.3 and ends:          # remove one END
                 del out[r.choice(ends)]
             elif k < 0.55 and ends:       # wrong END name
                 i = r.choice(ends)
-                out[i] = out[i] + (" wrongname" if " " in out[i] else "")
+                w = out[i].split()
+                out[i] = " ".join(w[:-1] + ["wrongname"]) if len(w) >= 3 else out[i]
             elif k < 0.75 and ends:       # bare end in place of construct end
                 out[r.choice(ends)] = "end"
             elif k < 0.9:                 # cut the tail
-                out = out[: r.randint(1, len(out))]
+                cut = r.randint(1, len(out))
+                opened = [x for x in out[:cut] if x.startswith(("where", "forall"))]
+                closed = [x for x in out[:cut] if x.startswith(("endwhere", "end where", "endforall", "end forall"))]
+                if len(opened) == len(closed):
+                    out = out[:cut]
             else:                         # stray END
                 out.insert(r.randint(0, len(out)), r.choice(["end if", "end do", "end subroutine"]))
         return out
@@ -952,6 +986,7 @@ def run_roundtrip(model, rng, verbose=False):
             ok, r = normeq(model, out, mutated)
             if allowed_mutation(kind, info, out, mutated):
                 st["allowed"] += 1
+                st["allowed_eq"] = st.get("allowed_eq", 0) + (1 if ok else 0)
                 continue
             st["mut"][kind] = (tot + 1, det_ + (0 if ok else 1))
             if ok:
@@ -968,7 +1003,7 @@ def run_roundtrip(model, rng, verbose=False):
 def run_nest(model, rng, n):
     st = {"n": 0, "agree": 0, "disagree": [], "real_ok": 0, "real_err": 0, "real_other": [],
           "c19_ok": 0, "c19_fail": [], "shared": 0, "c19_fail_unshared": [], "struct_diff": 0,
-          "expr_ne": 0, "expr_n": 0}
+          "lost_header": 0}
     for src, isfree in gen_sources(rng, n):
         st["n"] += 1
         r = check_nest1(model, src, isfree)
@@ -988,7 +1023,9 @@ def run_nest(model, rng, n):
                 st["struct_diff"] += 1
         elif r["c19"] is False:
             st["c19_fail"].append((src, isfree, r.get("c19_detail")))
-            if not r["shared"]:
+            if r["lost_header"]:
+                st["lost_header"] += 1
+            if not r["shared"] and not r["lost_header"]:
                 st["c19_fail_unshared"].append((src, isfree, r.get("c19_detail")))
     return st
 
@@ -1034,10 +1071,12 @@ def main(argv=None):
         print("  DISAGREE free=%s real=%s model=%s\n%s" % (isfree, real, mod, src))
     for src, why in sn["real_other"][:5]:
         print("  OTHER %s\n%s" % (why, src))
-    print("== C19 direct oracle: %d stable, %d not stable (%d with shared DO label = known defect, "
-          "%d unexplained), structure differs %d"
-          % (sn["c19_ok"], len(sn["c19_fail"]), len(sn["c19_fail"]) - len(sn["c19_fail_unshared"]),
+    print("== C19 direct oracle: %d stable, %d not stable (known defects: %d FORALL/ASSOCIATE header lost, "
+          "%d shared DO label; %d unexplained), structure differs %d"
+          % (sn["c19_ok"], len(sn["c19_fail"]), sn["lost_header"],
+             len(sn["c19_fail"]) - len(sn["c19_fail_unshared"]) - sn["lost_header"],
              len(sn["c19_fail_unshared"]), sn["struct_diff"]))
+    bad += sn["struct_diff"]
     for src, isfree, why in sn["c19_fail_unshared"][:5]:
         bad += 1
         print("  C19 FAIL free=%s %s\n%s" % (isfree, why, src))
